@@ -908,6 +908,14 @@ func (vc *VC) pureApp(st *State, cal *Callee, recv *Value, args []Value) Value {
 		c := vc.fresh("app_"+cal.fn.Name(), t.Sort)
 		vc.defs[t.S] = c
 		vc.axioms = append(vc.axioms, tEq(c, t))
+		pa := PureApp{Key: cal.key, Const: c}
+		if recv != nil {
+			pa.Recv = &recv.T
+		}
+		for _, a := range args {
+			pa.Args = append(pa.Args, a.T)
+		}
+		vc.pureApps = append(vc.pureApps, pa)
 		return Value{T: c, Ty: rt}
 	}
 	return Value{T: t, Ty: rt}
